@@ -1,4 +1,4 @@
-import BppProofs.Lemmas.NumDerivRaise
+import BppProofs.Lemmas.NumDerivPaths
 /-!
 # C12 — numerical derivatives are transparent and exact on low-degree polynomials
 
@@ -845,6 +845,265 @@ theorem three_point_one_sided_stored (f : List ℝ → ℝ) (w : W ℝ) (params 
       (by intro e; apply hH; linarith)
     rw [this]
 
+
+/-! ## 11. The other fall-back paths, end to end (round 2)
+
+Same situation as in section 10: one selected variable `v`, at `x` in the wrapped function, passed
+with a constraint (`qv`, precision 0) that refuses some probes; `H = (1 + |x|) h`.  Each theorem: under
+the guard of the path (which probes are refused, which accepted) `updateDerivatives` does not raise
+and the derivatives it stores are the finite-difference formula of that path evaluated at the
+requested point; on an `f` that is a cubic in `v` the stored values are given in closed form, which
+shows the degree each formula differentiates exactly. -/
+
+/-- five-point scheme, backward one-sided formulas (Five:68-76): `x - 2H` accepted, `x + 2H` refused,
+`x - H` accepted.  Stored: `(f(x) - f(x-H)) / H` and `(f(x) - 2 f(x-H) + f(x-2H)) / H²`.  On a cubic
+`a₀ + a₁t + a₂t² + a₃t³` the second derivative is off by `-6 a₃ H` (exact on degree ≤ 2), the first
+one, for `a₃ = 0`, by `-a₂ H` (exact on degree ≤ 1). -/
+theorem five_point_backward_stored (f : List ℝ → ℝ) (w : W ℝ) (params : PList ℝ) (v : Name) (hown : Own w.fn)
+    (hok : w.fn.OK f) (hF : FreeFn f params w.fn.params) (hpnd : (names params).Nodup) (hc1 : w.c1 = true)
+    (hvars : w.vars = [v]) (hh : w.h ≠ 0) (b qv : Param ℝ)
+    (hqv : find? params v = some qv) (hb : find? w.fn.params v = some b) (hprec : qv.prec = 0)
+    (hl1 : w.der1.length = 1) (hl2 : w.der2.length = 1)
+    (hacc2 : qv.violates (b.value - 2 * ((1 + |b.value|) * w.h)) = false)
+    (hrej : qv.violates (b.value + 2 * ((1 + |b.value|) * w.h)) = true)
+    (hacc1 : qv.violates (b.value - (1 + |b.value|) * w.h) = false)
+    (a0 a1 a2 a3 : ℝ) (hcubic : ∀ t, f (values (upd1 w.fn.params v t)) = a0 + a1 * t + a2 * t ^ 2 + a3 * t ^ 3) :
+    (update5 f w params).2 = none ∧
+    (update5 f w params).1.der1 = [some (d1Side (f (values w.fn.params))
+      (f (values (upd1 w.fn.params v (b.value - (1 + |b.value|) * w.h)))) ((1 + |b.value|) * w.h))] ∧
+    (update5 f w params).1.der2 = [some ((2 * a2 + 6 * a3 * b.value) - 6 * a3 * ((1 + |b.value|) * w.h))] ∧
+    (a3 = 0 → (update5 f w params).1.der1 = [some ((a1 + 2 * a2 * b.value) - a2 * ((1 + |b.value|) * w.h))]) := by
+  have hH : (1 + |b.value|) * w.h ≠ 0 := mul_ne_zero (by positivity) hh
+  have eH : (Scalar.one + Scalar.abs b.value) * w.h = (1 + |b.value|) * w.h := by
+    simp only [ScalarReal.one_eq, ScalarReal.abs_eq]
+  have e2 : (Scalar.ofInt 2 : ℝ) = 2 := by simp only [ScalarReal.ofInt_eq]; push_cast; rfl
+  obtain ⟨fn1, hval, hLI0, hfin⟩ := update5_single f w params v hown hok hF hpnd hc1 hvars
+  obtain ⟨s1, _, s3, s4⟩ := step5_of_probes f _ hLI0 0 v b qv hqv hb (by simp) _
+    (fun rest hri => probes5_backward f hF qv rest hri hprec b.value ((Scalar.one + Scalar.abs b.value) * w.h) fn1.fval
+      (by rw [eH]; exact hH) (by rw [eH, e2]; exact hacc2) (by rw [eH, e2]; exact hrej) (by rw [eH]; exact hacc1))
+  rcases hs : step5 f params { w := { w with fn := fn1, f3 := fn1.fval }, p := [], lastVar := none } 0 v with ⟨lp1, x1⟩
+  rw [hs] at s1 s3 s4
+  simp only [] at s1 s3 s4
+  subst s1
+  obtain ⟨q1, q2, q3⟩ := hfin lp1 hs
+  have hbase : f (values w.fn.params) = a0 + a1 * b.value + a2 * b.value ^ 2 + a3 * b.value ^ 3 := by
+    rw [← hcubic b.value, base_value f w.fn.params hown.1 v b hb]
+  have hd1 : (update5 f w params).1.der1 = [some (d1Side (f (values w.fn.params))
+      (f (values (upd1 w.fn.params v (b.value - (1 + |b.value|) * w.h)))) ((1 + |b.value|) * w.h))] := by
+    rw [q2, s3, setAt_single _ _ hl1, eH, hval]
+  refine ⟨q1, hd1, ?_, ?_⟩
+  · rw [q3, s4, setAt_single _ _ hl2, eH, e2, hval, hbase]
+    simp only [hcubic, d2Side_real]
+    congr 2
+    field_simp
+    ring
+  · intro h3
+    rw [hd1, hbase]
+    simp only [hcubic, d1Side_real, h3]
+    congr 2
+    field_simp
+    ring
+
+/-- five-point scheme, forward one-sided formulas (Five:81-89): `x - 2H` refused, `x + H` and `x + 2H`
+accepted.  Stored: `(f(x+H) - f(x)) / H` and `(f(x+2H) - 2 f(x+H) + f(x)) / H²`.  On a cubic the second
+derivative is off by `+6 a₃ H` (exact on degree ≤ 2), the first one, for `a₃ = 0`, by `+a₂ H` (exact
+on degree ≤ 1). -/
+theorem five_point_forward_stored (f : List ℝ → ℝ) (w : W ℝ) (params : PList ℝ) (v : Name) (hown : Own w.fn)
+    (hok : w.fn.OK f) (hF : FreeFn f params w.fn.params) (hpnd : (names params).Nodup) (hc1 : w.c1 = true)
+    (hvars : w.vars = [v]) (hh : w.h ≠ 0) (b qv : Param ℝ)
+    (hqv : find? params v = some qv) (hb : find? w.fn.params v = some b) (hprec : qv.prec = 0)
+    (hl1 : w.der1.length = 1) (hl2 : w.der2.length = 1)
+    (hrej : qv.violates (b.value - 2 * ((1 + |b.value|) * w.h)) = true)
+    (hacc1 : qv.violates (b.value + (1 + |b.value|) * w.h) = false)
+    (hacc2 : qv.violates (b.value + 2 * ((1 + |b.value|) * w.h)) = false)
+    (a0 a1 a2 a3 : ℝ) (hcubic : ∀ t, f (values (upd1 w.fn.params v t)) = a0 + a1 * t + a2 * t ^ 2 + a3 * t ^ 3) :
+    (update5 f w params).2 = none ∧
+    (update5 f w params).1.der1 = [some (d1Side (f (values (upd1 w.fn.params v (b.value + (1 + |b.value|) * w.h))))
+      (f (values w.fn.params)) ((1 + |b.value|) * w.h))] ∧
+    (update5 f w params).1.der2 = [some ((2 * a2 + 6 * a3 * b.value) + 6 * a3 * ((1 + |b.value|) * w.h))] ∧
+    (a3 = 0 → (update5 f w params).1.der1 = [some ((a1 + 2 * a2 * b.value) + a2 * ((1 + |b.value|) * w.h))]) := by
+  have hH : (1 + |b.value|) * w.h ≠ 0 := mul_ne_zero (by positivity) hh
+  have eH : (Scalar.one + Scalar.abs b.value) * w.h = (1 + |b.value|) * w.h := by
+    simp only [ScalarReal.one_eq, ScalarReal.abs_eq]
+  have e2 : (Scalar.ofInt 2 : ℝ) = 2 := by simp only [ScalarReal.ofInt_eq]; push_cast; rfl
+  have hqval : qv.value = b.value :=
+    (hF.ctx.sync qv (find?_some hqv).1 b (find?_some hb).1 (by rw [(find?_some hb).2, (find?_some hqv).2])).symm
+  obtain ⟨fn1, hval, hLI0, hfin⟩ := update5_single f w params v hown hok hF hpnd hc1 hvars
+  obtain ⟨s1, _, s3, s4⟩ := step5_of_probes f _ hLI0 0 v b qv hqv hb (by simp) _
+    (fun rest hri => probes5_forward f hF qv rest hri hprec b.value ((Scalar.one + Scalar.abs b.value) * w.h) fn1.fval
+      (by rw [eH]; exact hH) hqval (by rw [eH, e2]; exact hrej) (by rw [eH]; exact hacc1) (by rw [eH, e2]; exact hacc2))
+  rcases hs : step5 f params { w := { w with fn := fn1, f3 := fn1.fval }, p := [], lastVar := none } 0 v with ⟨lp1, x1⟩
+  rw [hs] at s1 s3 s4
+  simp only [] at s1 s3 s4
+  subst s1
+  obtain ⟨q1, q2, q3⟩ := hfin lp1 hs
+  have hbase : f (values w.fn.params) = a0 + a1 * b.value + a2 * b.value ^ 2 + a3 * b.value ^ 3 := by
+    rw [← hcubic b.value, base_value f w.fn.params hown.1 v b hb]
+  have hd1 : (update5 f w params).1.der1 = [some (d1Side (f (values (upd1 w.fn.params v (b.value + (1 + |b.value|) * w.h))))
+      (f (values w.fn.params)) ((1 + |b.value|) * w.h))] := by
+    rw [q2, s3, setAt_single _ _ hl1, eH, hval]
+  refine ⟨q1, hd1, ?_, ?_⟩
+  · rw [q3, s4, setAt_single _ _ hl2, eH, e2, hval, hbase]
+    simp only [hcubic, d2Side_real]
+    congr 2
+    field_simp
+    ring
+  · intro h3
+    rw [hd1, hbase]
+    simp only [hcubic, d1Side_real, h3]
+    congr 2
+    field_simp
+    ring
+
+/-- two-point scheme, right-hand probe (Two:86-87): `x - H` refused, `x + H` accepted.  Stored:
+`(f(x+H) - f(x)) / H`; on a quadratic off by `+a₂ H` (exact on degree ≤ 1). -/
+theorem two_point_right_stored (f : List ℝ → ℝ) (w : W ℝ) (params : PList ℝ) (v : Name) (hown : Own w.fn)
+    (hok : w.fn.OK f) (hF : FreeFn f params w.fn.params) (hpnd : (names params).Nodup) (hc1 : w.c1 = true)
+    (hvars : w.vars = [v]) (hh : 0 < w.h) (b qv : Param ℝ)
+    (hqv : find? params v = some qv) (hb : find? w.fn.params v = some b) (hprec : qv.prec = 0)
+    (hl1 : w.der1.length = 1)
+    (hrej : qv.violates (b.value - (1 + |b.value|) * w.h) = true)
+    (hacc : qv.violates (b.value + (1 + |b.value|) * w.h) = false)
+    (a0 a1 a2 : ℝ) (hquad : ∀ t, f (values (upd1 w.fn.params v t)) = a0 + a1 * t + a2 * t ^ 2) :
+    (update2 f w params).2 = none ∧
+    (update2 f w params).1.der1 = [some (d1Two (f (values w.fn.params))
+      (f (values (upd1 w.fn.params v (b.value + (1 + |b.value|) * w.h)))) ((1 + |b.value|) * w.h))] ∧
+    (update2 f w params).1.der1 = [some ((a1 + 2 * a2 * b.value) + a2 * ((1 + |b.value|) * w.h))] := by
+  have hH : (1 + |b.value|) * w.h ≠ 0 := mul_ne_zero (by positivity) (ne_of_gt hh)
+  have eH : (Scalar.one + Scalar.abs b.value) * w.h = (1 + |b.value|) * w.h := by
+    simp only [ScalarReal.one_eq, ScalarReal.abs_eq]
+  obtain ⟨fn1, hval, hLI0, hfin⟩ := update2_single f w params v hown hok hF hpnd hc1 hvars
+  obtain ⟨s1, _, s3⟩ := step2_right f hF _ hLI0 0 v b qv hqv hb (by simp) hh hprec
+    (by rw [eH, ← sub_eq_add_neg]; exact hrej) (by rw [eH]; exact hacc)
+  rcases hs : step2 f params { w := { w with fn := fn1, f1 := fn1.fval }, p := [], lastVar := none } 0 v with ⟨lp1, x1⟩
+  rw [hs] at s1 s3
+  simp only [] at s1 s3
+  subst s1
+  obtain ⟨q1, q2⟩ := hfin lp1 hs
+  have hbase : f (values w.fn.params) = a0 + a1 * b.value + a2 * b.value ^ 2 := by
+    rw [← hquad b.value, base_value f w.fn.params hown.1 v b hb]
+  have hd1 : (update2 f w params).1.der1 = [some (d1Two (f (values w.fn.params))
+      (f (values (upd1 w.fn.params v (b.value + (1 + |b.value|) * w.h)))) ((1 + |b.value|) * w.h))] := by
+    rw [q2, s3, setAt_single _ _ hl1, eH, hval]
+  refine ⟨q1, hd1, ?_⟩
+  rw [hd1, hbase]
+  simp only [hquad, d1Two_real]
+  congr 2
+  field_simp
+  ring
+
+/-- two-point scheme, halved step (Two:88-89): `x - H` and `x + H` refused, `x - H/2` accepted.
+Stored: `(f(x - H/2) - f(x)) / (-H/2)`; on a quadratic off by `-a₂ H/2` (exact on degree ≤ 1). -/
+theorem two_point_halved_stored (f : List ℝ → ℝ) (w : W ℝ) (params : PList ℝ) (v : Name) (hown : Own w.fn)
+    (hok : w.fn.OK f) (hF : FreeFn f params w.fn.params) (hpnd : (names params).Nodup) (hc1 : w.c1 = true)
+    (hvars : w.vars = [v]) (hh : 0 < w.h) (b qv : Param ℝ)
+    (hqv : find? params v = some qv) (hb : find? w.fn.params v = some b) (hprec : qv.prec = 0)
+    (hl1 : w.der1.length = 1)
+    (hrejL : qv.violates (b.value - (1 + |b.value|) * w.h) = true)
+    (hrejR : qv.violates (b.value + (1 + |b.value|) * w.h) = true)
+    (hacc : qv.violates (b.value - (1 + |b.value|) * w.h / 2) = false)
+    (a0 a1 a2 : ℝ) (hquad : ∀ t, f (values (upd1 w.fn.params v t)) = a0 + a1 * t + a2 * t ^ 2) :
+    (update2 f w params).2 = none ∧
+    (update2 f w params).1.der1 = [some (d1Two (f (values w.fn.params))
+      (f (values (upd1 w.fn.params v (b.value - (1 + |b.value|) * w.h / 2)))) (-((1 + |b.value|) * w.h / 2)))] ∧
+    (update2 f w params).1.der1 = [some ((a1 + 2 * a2 * b.value) - a2 * ((1 + |b.value|) * w.h / 2))] := by
+  have hH : (1 + |b.value|) * w.h ≠ 0 := mul_ne_zero (by positivity) (ne_of_gt hh)
+  have eH : (Scalar.one + Scalar.abs b.value) * w.h = (1 + |b.value|) * w.h := by
+    simp only [ScalarReal.one_eq, ScalarReal.abs_eq]
+  have eh : (1 + |b.value|) * w.h / (-(Scalar.ofInt 2 : ℝ)) = -((1 + |b.value|) * w.h / 2) := by
+    simp only [ScalarReal.ofInt_eq]; push_cast; ring
+  obtain ⟨fn1, hval, hLI0, hfin⟩ := update2_single f w params v hown hok hF hpnd hc1 hvars
+  obtain ⟨s1, _, s3⟩ := step2_halved f hF _ hLI0 0 v b qv hqv hb (by simp) hh hprec
+    (by rw [eH, ← sub_eq_add_neg]; exact hrejL) (by rw [eH]; exact hrejR)
+    (by rw [eH, eh, ← sub_eq_add_neg]; exact hacc)
+  rcases hs : step2 f params { w := { w with fn := fn1, f1 := fn1.fval }, p := [], lastVar := none } 0 v with ⟨lp1, x1⟩
+  rw [hs] at s1 s3
+  simp only [] at s1 s3
+  subst s1
+  obtain ⟨q1, q2⟩ := hfin lp1 hs
+  have hbase : f (values w.fn.params) = a0 + a1 * b.value + a2 * b.value ^ 2 := by
+    rw [← hquad b.value, base_value f w.fn.params hown.1 v b hb]
+  have hd1 : (update2 f w params).1.der1 = [some (d1Two (f (values w.fn.params))
+      (f (values (upd1 w.fn.params v (b.value - (1 + |b.value|) * w.h / 2)))) (-((1 + |b.value|) * w.h / 2)))] := by
+    rw [q2, s3, setAt_single _ _ hl1, eH, eh, ← sub_eq_add_neg, hval]
+  refine ⟨q1, hd1, ?_⟩
+  rw [hd1, hbase]
+  simp only [hquad, d1Two_real]
+  congr 2
+  field_simp
+  ring
+
+/-- three-point scheme, halved step (Three:90-91, 98-99): `x - H` and `x + H` refused, `x - H/2` and
+`x + H/2` accepted: symmetric probes with half the step.  Stored: `d1Three`/`d2Three` of the values at
+`x ∓ H/2`; on a cubic the second derivative is exact (degree ≤ 3), the first one is off by
+`a₃ (H/2)²` (exact on degree ≤ 2). -/
+theorem three_point_halved_stored (f : List ℝ → ℝ) (w : W ℝ) (params : PList ℝ) (v : Name) (hown : Own w.fn)
+    (hok : w.fn.OK f) (hF : FreeFn f params w.fn.params) (hpnd : (names params).Nodup) (hc1 : w.c1 = true)
+    (hcx : w.cx = false) (hvars : w.vars = [v]) (hh : 0 < w.h) (b qv : Param ℝ)
+    (hqv : find? params v = some qv) (hb : find? w.fn.params v = some b) (hprec : qv.prec = 0)
+    (hl1 : w.der1.length = 1) (hl2 : w.der2.length = 1)
+    (hrejL : qv.violates (b.value - (1 + |b.value|) * w.h) = true)
+    (hrejR : qv.violates (b.value + (1 + |b.value|) * w.h) = true)
+    (haccL : qv.violates (b.value - (1 + |b.value|) * w.h / 2) = false)
+    (haccR : qv.violates (b.value + (1 + |b.value|) * w.h / 2) = false)
+    (a0 a1 a2 a3 : ℝ) (hcubic : ∀ t, f (values (upd1 w.fn.params v t)) = a0 + a1 * t + a2 * t ^ 2 + a3 * t ^ 3) :
+    (update3 f w params).2 = none ∧
+    (update3 f w params).1.der1 = [some (d1Three (f (values (upd1 w.fn.params v (b.value - (1 + |b.value|) * w.h / 2))))
+      (f (values (upd1 w.fn.params v (b.value + (1 + |b.value|) * w.h / 2))))
+      (-((1 + |b.value|) * w.h / 2)) ((1 + |b.value|) * w.h / 2))] ∧
+    (update3 f w params).1.der2 = [some (2 * a2 + 6 * a3 * b.value)] ∧
+    (update3 f w params).1.der1 = [some ((a1 + 2 * a2 * b.value + 3 * a3 * b.value ^ 2) + a3 * ((1 + |b.value|) * w.h / 2) ^ 2)] := by
+  have hH : (1 + |b.value|) * w.h ≠ 0 := mul_ne_zero (by positivity) (ne_of_gt hh)
+  have eH : (Scalar.one + Scalar.abs b.value) * w.h = (1 + |b.value|) * w.h := by
+    simp only [ScalarReal.one_eq, ScalarReal.abs_eq]
+  have eh : (1 + |b.value|) * w.h / (-(Scalar.ofInt 2 : ℝ)) = -((1 + |b.value|) * w.h / 2) := by
+    simp only [ScalarReal.ofInt_eq]; push_cast; ring
+  obtain ⟨fn1, hval, hLI0, hfin⟩ := update3_single f w params v hown hok hF hpnd hc1 hcx hvars
+  obtain ⟨s1, _, s3, s4⟩ := step3_halved f hF _ hLI0 0 v b qv hqv hb (by simp) hh hprec
+    (by rw [eH, ← sub_eq_add_neg]; exact hrejL) (by rw [eH]; exact hrejR)
+    (by rw [eH, eh, ← sub_eq_add_neg]; exact haccL) (by rw [eH, eh, neg_neg]; exact haccR)
+  rcases hs : step3 f params { w := { w with fn := fn1, f2 := fn1.fval }, p := [], lastVar := none } 0 v with ⟨lp1, x1⟩
+  rw [hs] at s1 s3 s4
+  simp only [] at s1 s3 s4
+  subst s1
+  obtain ⟨q1, q2, q3⟩ := hfin lp1 hs
+  have hbase : f (values w.fn.params) = a0 + a1 * b.value + a2 * b.value ^ 2 + a3 * b.value ^ 3 := by
+    rw [← hcubic b.value, base_value f w.fn.params hown.1 v b hb]
+  have hd1 : (update3 f w params).1.der1 = [some (d1Three (f (values (upd1 w.fn.params v (b.value - (1 + |b.value|) * w.h / 2))))
+      (f (values (upd1 w.fn.params v (b.value + (1 + |b.value|) * w.h / 2))))
+      (-((1 + |b.value|) * w.h / 2)) ((1 + |b.value|) * w.h / 2))] := by
+    rw [q2, s3, setAt_single _ _ hl1, eH, eh, neg_neg, ← sub_eq_add_neg]
+  have hne : -((1 + |b.value|) * w.h / 2) - (1 + |b.value|) * w.h / 2 ≠ 0 := by
+    intro e; apply hH; linarith
+  have hne2 : (1 + |b.value|) * w.h / 2 ≠ 0 := div_ne_zero hH (by norm_num)
+  refine ⟨q1, hd1, ?_, ?_⟩
+  · rw [q3, s4, setAt_single _ _ hl2, eH, eh, neg_neg, ← sub_eq_add_neg, hval, hbase]
+    simp only [hcubic, d2Three_real]
+    congr 2
+    have hne3 : -((1 + |b.value|) * w.h / 2) ≠ 0 := neg_ne_zero.mpr hne2
+    field_simp
+    ring
+  · rw [hd1]
+    simp only [hcubic, d1Three_real]
+    congr 2
+    field_simp
+    ring
+
+/-- the guards of the fall-back paths are satisfiable: a parameter at 0 with step 1/16 (`H = 1/16`)
+passed with the constraints `[-1/8, 1/16]` (five-point backward), `[-1/16, 1/8]` (five-point
+forward), `[0, 1]` (two-point right-hand probe), `[-3/64, 3/64]` (halved steps) -/
+example : ∃ (q1 q2 q3 q4 : Param ℝ) (x h : ℝ), 0 < h ∧
+    (q1.violates (x - 2 * ((1 + |x|) * h)) = false ∧ q1.violates (x + 2 * ((1 + |x|) * h)) = true ∧
+      q1.violates (x - (1 + |x|) * h) = false) ∧
+    (q2.violates (x - 2 * ((1 + |x|) * h)) = true ∧ q2.violates (x + (1 + |x|) * h) = false ∧
+      q2.violates (x + 2 * ((1 + |x|) * h)) = false) ∧
+    (q3.violates (x - (1 + |x|) * h) = true ∧ q3.violates (x + (1 + |x|) * h) = false) ∧
+    (q4.violates (x - (1 + |x|) * h) = true ∧ q4.violates (x + (1 + |x|) * h) = true ∧
+      q4.violates (x - (1 + |x|) * h / 2) = false ∧ q4.violates (x + (1 + |x|) * h / 2) = false) := by
+  refine ⟨⟨0, 0, 0, some ⟨some (-1 / 8), some (1 / 16), true, true⟩⟩, ⟨0, 0, 0, some ⟨some (-1 / 16), some (1 / 8), true, true⟩⟩,
+    ⟨0, 0, 0, some ⟨some 0, some 1, true, true⟩⟩, ⟨0, 0, 0, some ⟨some (-3 / 64), some (3 / 64), true, true⟩⟩,
+    0, 1 / 16, by norm_num, ⟨?_, ?_, ?_⟩, ⟨?_, ?_, ?_⟩, ⟨?_, ?_⟩, ⟨?_, ?_, ?_, ?_⟩⟩ <;>
+    simp [Param.violates, Interval.isCorrect, Scalar.geb, Scalar.leb] <;> norm_num
 
 /-! ## Non-vacuity of the hypotheses -/
 
